@@ -82,7 +82,7 @@ class QuaMapMeta:
         self.artist = d.get("Artist", self.artist)
         self.source = d.get("Source", self.source)
         # Tags are sep by " "
-        self.tags = [i for i in d.get("Tags", "").split(" ") if i]
+        self.tags = [i for i in str(d.get("Tags") or "").split(" ") if i]
         self.creator = d.get("Creator", self.creator)
         self.difficulty_name = d.get("DifficultyName", self.difficulty_name)
         self.description = d.get("Description", self.description)
